@@ -224,6 +224,28 @@ def build(rng, pattern, cell_cls, atol, n_copies=2, crossings=None, poses=None, 
                     v = rng.normal(size=3)
                     rot = rot.copy()
                     rot[j] += v / np.linalg.norm(v) * rng.uniform(8, 20) * atol
+                elif d == "bent" and len(rot) == 3:
+                    # a strongly bent look-alike of an almost linear three-atom pattern: the middle atom is pushed sideways, away from
+                    # the line through the two ends, as far as the pair distances allow (they change only to second order, by at most
+                    # 0.8 atol), i.e. by several tolerances; planted only where that is at least 4.5 tolerances
+                    D = np.linalg.norm(rot[:, None, :] - rot[None, :, :], axis=2)
+                    a, b = [int(x) for x in np.unravel_index(np.argmax(D), D.shape)]
+                    m = 3 - a - b
+                    ax = (rot[b] - rot[a]) / np.linalg.norm(rot[b] - rot[a])
+                    off = (rot[m] - rot[a]) - (rot[m] - rot[a]).dot(ax) * ax
+                    if np.linalg.norm(off) < 1e-9:
+                        off = np.cross(ax, rng.normal(size=3))
+                    u = off / np.linalg.norm(off)
+                    change = lambda t: max(abs(np.linalg.norm(rot[m] + t * u - rot[e]) - np.linalg.norm(rot[m] - rot[e])) for e in (a, b))
+                    lo_, hi_ = 0.0, 6.0
+                    want = rng.uniform(0.6, 0.8) * atol
+                    for _ in range(60):
+                        mid_ = 0.5 * (lo_ + hi_)
+                        lo_, hi_ = (mid_, hi_) if change(mid_) < want else (lo_, mid_)
+                    if lo_ < 4.5 * atol:
+                        continue
+                    rot = rot.copy()
+                    rot[m] += lo_ * u
                 elif d == "tangential":
                     # displaced by 2-2.8 atol perpendicular to its radius from the first atom
                     rad = rot[j] - rot[0]
@@ -237,6 +259,12 @@ def build(rng, pattern, cell_cls, atol, n_copies=2, crossings=None, poses=None, 
             if len(pels[0]) < 2 or not pels[0][:1].isupper():
                 continue
             dels = [pels[0][:1]] + list(pels[1:])
+        if d == "first_element_other":
+            # an exact copy of the geometry whose first atom is of the element of ANOTHER atom of the pattern (C-C-H beside N-C-H)
+            others = [e for e in dict.fromkeys(pels) if e != pels[0]]
+            if not others:
+                continue
+            dels = [others[int(rng.integers(len(others)))]] + list(pels[1:])
         placed = place(rng, cell, rot, None, positions, min_sep)
         if placed is not None:
             decoy_groups.append((d, add_group(placed[0], dels, "decoy:" + d)))
